@@ -471,6 +471,55 @@ def skipvar_history(S, M, n):
     S.prove_eq(mean_t, Mref, "mean under skip_posterior_variances after a train/step/eval cycle uses the CURRENT q(u)")
 
 
+def old_checkpoint(S, M, n, dist):
+    """a VariationalStrategy restored from an old-format state (updated_strategy = False: the stored parameters are the
+    UNWHITENED q(u) = N(m, S)); the one-time conversion at the first call must leave the same q(u).  Only the full-covariance
+    (Cholesky) distribution is checked: a mean-field family cannot represent the whitened covariance L^-1 S L^-T, so the
+    conversion is lossy there by construction."""
+    N = M + n
+    Z, X = labels(0, M), labels(M, N)
+    Gs, Gc = S.factor("g", N)
+    d, Mq, Cq = _make_dist(S, dist, M, ())
+    table = torch.zeros(N, N)
+    model = VGP(V.VariationalStrategy, d, Z, table, make_mean("constant"))
+    declare_params(S, model.mean_module, "mean_")
+    for p in model.parameters():
+        p.requires_grad_(False)
+    vs = model.variational_strategy
+    vs.variational_params_initialized.fill_(1)
+    vs.updated_strategy.fill_(False)
+    jit = float(gpytorch.settings.variational_cholesky_jitter.value(torch.float64))
+    J = Gs @ Gs.T
+    K = J - eye(N) * Sym.const(jit)
+    with torch.no_grad():
+        table.copy_(Gc @ Gc.T - jit * torch.eye(N))
+    S.put(table, K)
+    model.eval()
+    with S.mode():
+        mall = as_sym_arr(SH.get(model.mean_module(labels(0, N))))
+        out = model(X)
+        mean_t, cov_t = out.mean, out.covariance_matrix
+        kl_t = vs.kl_divergence()
+        flag = bool(vs.updated_strategy.item())
+    S.check_concrete(flag, "the strategy is marked as converted after the first call")
+    Gz = Gs[:M, :M]
+    Kzz, Kxz, Kxx = J[:M, :M], K[M:, :M], J[M:, M:]
+    mz, mx = mall[:M], mall[M:]
+    A = spd_solve(Gz, Kxz.T)
+    Mref = mx + (A.T @ (Mq - mz).reshape(M, 1)).reshape(n)
+    Cref = Kxx + A.T @ (Cq - Kzz) @ A
+    S.prove_eq(mean_t, Mref, "q(f) mean of the converted old-format q(u)")
+    S.prove_eq(cov_t, Cref, "q(f) covariance of the converted old-format q(u)")
+    # KL(q(u) || N(m_z, Kzz + jitter I))
+    Kinv_S = spd_solve(Gz, Cq)
+    tr = np.sum(np.diagonal(Kinv_S))
+    z = tri_solve_lower(Gz, (Mq - mz).reshape(M, 1))
+    quad = np.sum(z * z)
+    logdet_p = sum((sym_log(Gz[i, i]) for i in range(M)), Sym.const(0.0)) * Sym.const(2.0)
+    logdet_q = _logdet(S, dist, (), M, ())
+    S.prove_eq(kl_t, (logdet_p - logdet_q + tr + quad - Sym.const(float(M))) * Sym.const(0.5), "KL of the converted old-format q(u)")
+
+
 def prior_case(S, strat, M, n):
     """q(u) = p(u)  =>  q(f) = prior and KL = 0"""
     N = M + n
@@ -634,6 +683,7 @@ def scenarios(tier, seed):
         add("prior_case", strat="variational", M=2, n=2)
         add("prior_case", strat="unwhitened", M=2, n=2)
         add("skipvar_history", M=2, n=2)
+        add("old_checkpoint", M=2, n=2, dist="cholesky")
         add("multitask", kind="independent", M=2, n=2, T=2, Q=0)
         add("multitask", kind="lmc", M=2, n=2, T=2, Q=2)
         add("multitask", kind="lmc", M=1, n=2, T=2, Q=2, B=2)
@@ -662,6 +712,8 @@ def scenarios(tier, seed):
             add("prior_case", strat=strat, M=3, n=1)
         add("skipvar_history", M=2, n=2)
         add("skipvar_history", M=3, n=1)
+        add("old_checkpoint", M=2, n=2, dist="cholesky")
+        add("old_checkpoint", M=3, n=1, dist="cholesky")
         add("multitask", kind="independent", M=2, n=2, T=2, Q=0)
         add("multitask", kind="independent", M=2, n=1, T=3, Q=0)
         add("multitask", kind="lmc", M=2, n=2, T=2, Q=2)
